@@ -29,6 +29,11 @@ SLOTS = [
     {"ann": "Own.Inner", "vals": ["Own.Inner()"]},
     {"ann": "Type[A]", "vals": ["A", "B"]},
     {"ann": "PkgLevel", "vals": ["PkgLevel()"]},
+    # annotations that arrive as text (quoted, as under PEP 563) with an optional type NESTED inside a non-optional one
+    {"ann": "'List[Optional[int]]'", "vals": ["[1, None]", "[]"]},
+    {"ann": "'Dict[str, Optional[int]]'", "vals": ["{'a': None}", "{'a': 1}"]},
+    {"ann": "'Callable[[Optional[int]], str]'", "vals": ["func"]},
+    {"ann": "'Tuple[Optional[str], int]'", "vals": ["(None, 1)", "('s', 2)"]},
     # annotations a type rewriter would change if it were (wrongly) applied to what the source says
     {"ann": "Union[int, str, float, bytes, A, Own]", "vals": ["1", "'s'", "1.5"]},
     {"ann": "Union[List[Any], List[int]]", "vals": ["[1]", "[]"]},
@@ -266,6 +271,8 @@ class Mod:
                     p.vals = list(rng.choice(VALUE_GROUPS))
                 else:
                     p.vals = [prefix_keys(e, f"f{f.idx}") if unique else e for e in rng.sample(self.value_pool(), n)]
+            if p.default == "DEFAULT" and p.ann and p.ann.startswith("'") and "[Optional" in p.ann.replace(" ", "").replace(",Optional", "[Optional"):
+                p.default = "None"  # the default-None clause with a textual annotation whose optional part is not at the top
             if p.default == "DEFAULT":
                 if rng.random() < 0.4 and (p.ann is None or p.ann.startswith("Optional") or rng.random() < 0.5):
                     p.default = "None"
@@ -314,6 +321,10 @@ class Mod:
             f = FuncSpec(idx, f"{prefix}_{'with_a_long_function_name_' if rng.random() < 0.1 else ''}{idx}", cls_path, kind, flavor)
             if unique and idx % 9 == 5:
                 f.name = ["typing_", "collections_", self.name + "_"][(idx // 9) % 3] + f.name  # named like a module the stub imports
+            if unique and idx % 9 == 7:
+                f.name = "gr\u00f6\u00dfe_" + f.name  # identifiers beyond ASCII (PEP 3131)
+            if unique and cls_path and len(cls_path) == 1 and idx % 8 == 3:
+                f.cls_path = cls_path = ["Caf\u00e9"]
             self.gen_params(f, unique)
             f.subdeco = kind in ("class", "static", "property") and rng.random() < 0.2
             if self.opts.get("wrapped"):
@@ -349,6 +360,16 @@ class Mod:
                 f.ret_ann = "None" if f.exit == "none" else rng.choice(["int", "None"])
             self.funcs.append(f)
             self.classes.setdefault(tuple(cls_path), []).append(f)
+        if unique and self.opts.get("kwonly_pair", True) and not self.opts.get("pool"):
+            # two functions that differ ONLY in the order of their keyword-only parameters (equal as inspect.Signature objects)
+            for nm, order in (("kwo_ab", ("a", "b")), ("kwo_ba", ("b", "a"))):
+                idx += 1
+                f = FuncSpec(idx, nm, [], "module", "plain")
+                kw = {"a": Param("a", "kwonly", default="None", vals=["None", "'s'"]), "b": Param("b", "kwonly", default="0", vals=["0", "1"])}
+                f.params = [Param("x", "normal", vals=["1"])] + [kw[n] for n in order]
+                f.ret_vals = ["1"]
+                self.funcs.append(f)
+                self.classes.setdefault((), []).append(f)
         self.render()
         return self
 
